@@ -408,7 +408,7 @@ def replay_plans(ctx, binp, mode, plans, name, timeout=900, later=None):
     if s is not None:
         absorb(ctx, s, rerun)
         with vp._lock:
-            n = ctx.notes.setdefault("gated", {"plans": 0, "plans_realised": 0, "steps_planned": 0, "steps_realised": 0, "projections_compared": 0})
+            n = ctx.notes.setdefault("gated", {"plans": 0, "plans_realised": 0, "steps_planned": 0, "steps_realised": 0, "projections_compared": 0, "projections_reread": 0})
             for k in n:
                 n[k] += s["notes"].get(k, 0)
             ex = ctx.notes.setdefault("not_realised_examples", [])
